@@ -5,8 +5,12 @@ import json, os, re, subprocess, sys, time, shutil, random
 ROOT = '/verif'
 SPEC = os.path.join(ROOT, 'spec')
 HARNESS = os.path.join(ROOT, 'harness')
-WORK = os.path.join(ROOT, 'work')
-VH = os.path.join(HARNESS, 'target', 'debug', 'vh')
+# VERIF_SCRATCH=<dir>: trial runs (e.g. against a seeded change) keep their build output, work files, replays and evidence
+# under <dir> and leave /verif/evidence, /verif/replays and the registered binary alone
+SCRATCH = os.environ.get('VERIF_SCRATCH')
+OUTROOT = SCRATCH or ROOT
+WORK = os.path.join(OUTROOT, 'work')
+VH = os.path.join(SCRATCH, 'target', 'debug', 'vh') if SCRATCH else os.path.join(HARNESS, 'target', 'debug', 'vh')
 JAR = '/opt/veriftools/tla/tla2tools.jar'
 
 
@@ -39,7 +43,8 @@ def build_harness():
     lock = os.path.join(HARNESS, 'Cargo.lock')
     if not os.path.exists(lock):
         shutil.copy('/repo/Cargo.lock', lock)
-    rc, out, dt = sh(['cargo', 'build', '--offline', '--quiet'], cwd=HARNESS, timeout=3600, check=False)
+    rc, out, dt = sh(['cargo', 'build', '--offline', '--quiet'], cwd=HARNESS, timeout=3600, check=False,
+                     env=({'CARGO_TARGET_DIR': os.path.join(SCRATCH, 'target')} if SCRATCH else None))
     if rc != 0:
         raise ToolError('harness build failed:\n' + out[-6000:])
     log(f'harness built in {dt:.1f}s')
@@ -299,7 +304,7 @@ class Run:
                 self.known_hits[k][0] += 1
             else:
                 viol.append(r)
-        rdir = os.path.join(ROOT, 'replays', self.pid)
+        rdir = os.path.join(OUTROOT, 'replays', self.pid)
         shutil.rmtree(rdir, ignore_errors=True)
         lines = []
         for k, (n, f, r) in sorted(self.known_hits.items()):
@@ -345,8 +350,8 @@ class Run:
             'coverage': cov, 'assumptions': self.assumptions, 'wall_s': round(wall, 2),
             'violations': len(viol),
         }
-        os.makedirs(os.path.join(ROOT, 'evidence'), exist_ok=True)
-        json.dump(ev, open(os.path.join(ROOT, 'evidence', f'{self.pid}.json'), 'w'), indent=1)
+        os.makedirs(os.path.join(OUTROOT, 'evidence'), exist_ok=True)
+        json.dump(ev, open(os.path.join(OUTROOT, 'evidence', f'{self.pid}.json'), 'w'), indent=1)
         for l in lines:
             print(l, flush=True)
         log(f'{self.pid} {self.tier}: evaluations={self.evaluations} states={self.states} '
